@@ -154,7 +154,25 @@ func (d *rdrv) Step(line string) string {
 			cnt = append(cnt, fmt.Sprintf("%s:%d", k, v))
 		}
 		sort.Strings(cnt)
-		return fmt.Sprintf("targets=[%s] drop=%d nso=%d cnt=[%s]", strings.Join(targets, ","), dr, nso, strings.Join(cnt, ";"))
+		// every peer queue as it is now: id:topic of each queued event (ids are what the peer will see on the wire)
+		var qs []string
+		for _, p := range d.f.Peers() {
+			var es []string
+			for _, e := range d.f.PeerQueue(p).Events() {
+				t := "?"
+				if m := e.GetMessage(); m != nil {
+					t = m.TopicName
+					if t == "" {
+						t = "-"
+					}
+				}
+				es = append(es, fmt.Sprintf("%d:%s", e.Id, t))
+			}
+			qs = append(qs, p+"="+strings.Join(es, ","))
+		}
+		sort.Strings(qs)
+		return fmt.Sprintf("targets=[%s] drop=%d nso=%d cnt=[%s] qs=[%s]", strings.Join(targets, ","), dr, nso, strings.Join(cnt, ";"),
+			strings.Join(qs, ";"))
 	}
 	return "bad-op"
 }
